@@ -84,7 +84,7 @@ def _hash_case(draw):
 
     def mk(p):
         dx, dT, sg = p
-        return [[b + sg * d for b, d in zip(base_x, dx)], base_T + sg * dT]
+        return [[max(0.0, b + sg * d) for b, d in zip(base_x, dx)], base_T + sg * dT]      # mole fractions are not negative
     op = st.one_of(
         pt.map(lambda p: ["add"] + mk(p)),
         pt.map(lambda p: ["get"] + mk(p)),
